@@ -163,6 +163,11 @@ def terminal_stream(run):
               ['[fe80::1%%eth0] Rejected output connection with ID "%s", expected "%s"' % (h.decode(), g.decode()) for h, g in zip(HOSTILE, HOSTILE[3:] + HOSTILE[:3])] + \
               ['[h] Error determining callback URL: punycoding xn--%s.example: idna: invalid label "%s"' % (h.decode(), h.decode()) for h in HOSTILE]
     cases = [{"i": k, "chunks": [], "status": [n.encode().hex()]} for k, n in enumerate(notices)]
+    # Ctrl+J shows the operator what Ctrl+I would send: the payload is data too (shell functions are full of percent signs)
+    payloads = ["pf() { printf '%s\\n' \"$1\"; date +%Y-%m-%d; echo ${1%.tar.gz} 100% %[1]q %!; }\n", "%d %v %x %%", "no percent at all\n"] + [h.decode() for h in HOSTILE[:6]]
+    for pl in payloads:
+        notices.append(pl)
+        cases.append({"i": len(cases), "chunks": [], "status": [], "ctrl_j": pl.encode().hex()})
     inf, outf = os.path.join(run.rundir, "c10term.in"), os.path.join(run.rundir, "c10term.out")
     with open(inf, "w") as f:
         for c in cases:
@@ -172,7 +177,7 @@ def terminal_stream(run):
     res = [json.loads(l) for l in open(outf)] if os.path.exists(outf) else []
     bad = []
     for n, r in zip(notices, res):
-        shown = bytes.fromhex(r.get("shown", "")).decode(errors="replace")
+        shown = bytes.fromhex(r.get("shown", "")).decode(errors="replace").replace("\r\n", "\n")
         if n not in shown:
             bad.append({"notice_on_the_operator_channel": n, "terminal_shows": shown[-300:]})
     for b in bad[:1]:
